@@ -32,6 +32,17 @@ def logical_document(names=("OBJ", "EXP")):
               (b, [-(2 ** 53) - 1, -4.5, "se cond"])])
 
 
+def other_document():
+    """same structure, column and enum names as logical_document(), other definitions"""
+    dB = dict(logical_document(("OBJ", "EXP")))
+    dB["enum"] = ("COLOR", ["ULTRAVIOLET", "RED"])
+    a_, b_ = "OBJ", "EXP"
+    dB["structs"] = [(a_, [("id", "long", None), ("mag", "float", None), ("name", "char", 4), ("flag", "COLOR", None), ("tags", "char", 6), ("kinds", "char", (2, 9))]),
+                     (b_, [("n", "int", 2), ("ratio", "float", None), ("label", "char", "var")])]
+    dB["rows"] = [(a_, [2 ** 40, 2.5, "ab", "ULTRAVIOLET", "single", ["u v", "wxyz"]]), (b_, [[1, 2], 0.5, "a longer label"]), (a_, [5, -1.0, "", "RED", "t", ["", "k"]])]
+    return dB
+
+
 def render(doc, opts, rng_bits=0):
     o = {k: bool(opts[i]) for i, k in enumerate(LAYOUT)}
     o["typedef_oneline"] = False      # typedefs on a single line are not among the renderings the property lists (and are not parsed correctly)
@@ -245,8 +256,20 @@ class LayoutIndependence:
                             bad = ["raised %s: %s" % (type(e).__name__, e)]
                         if bad and not ("structure_names:" + kind in active):
                             fails.setdefault("structure_names:" + kind, []).append((bad[0], dict(names=list(names), options=[LAYOUT[j] for j in range(len(LAYOUT)) if opts[j]], raw=raw)))
+            # documents that reuse structure, column and enum names with OTHER definitions, read one after the other in one process
+            # (what a reader learned from one document must not leak into the next)
+            dA, dB = logical_document(("OBJ", "EXP")), other_document()
+            for raw in (False, True):
+                for seqno, dd in enumerate((dA, dB, dA, dB)):
+                    count += 1
+                    try:
+                        bad = compare(parse(render(dd, (0,) * len(LAYOUT)), "text", raw), dd, raw)
+                    except Exception as e:
+                        bad = ["raised %s: %s" % (type(e).__name__, e)]
+                    if bad:
+                        fails.setdefault("structure_names:same_names_other_definitions_in_sequence", []).append((bad[0], dict(step=seqno, raw=raw)))
             res["paths"] = res["native_runs"] = count
-            kinds = ["layout:" + k for k in LAYOUT] + ["layout:combined", "structure_names:names_plain", "structure_names:names_substring", "structure_names:names_equal_to_a_column"]
+            kinds = ["layout:" + k for k in LAYOUT] + ["layout:combined", "structure_names:same_names_other_definitions_in_sequence", "structure_names:names_plain", "structure_names:names_substring", "structure_names:names_equal_to_a_column"]
             for kd in kinds:
                 b = fails.get(kd, [])
                 d = dict(name="layout_independence:" + kd, path=0, status="unsat" if not b else "sat", secs=0.0, backend="native-exhaustive", size=0,
@@ -261,6 +284,16 @@ class LayoutIndependence:
         return res
 
     def native_replay(self, inputs):
+        if "same_names_other_definitions" in str(inputs.get("clause", "")):
+            raw = inputs.get("raw", False)
+            for seqno, dd in enumerate((logical_document(("OBJ", "EXP")), other_document()) * 2):
+                try:
+                    bad = compare(parse(render(dd, (0,) * len(LAYOUT)), "text", raw), dd, raw)
+                except Exception as e:
+                    bad = ["raised %s: %s" % (type(e).__name__, e)]
+                if bad:
+                    return (False, "document %d of the sequence A, B, A, B (raw=%s): %s" % (seqno, raw, bad[:2]))
+            return (True, "sequence A, B, A, B parsed as written")
         names = tuple(inputs.get("names", ("OBJ", "EXP")))
         doc = logical_document(names)
         opts = tuple(1 if k in inputs.get("options", []) else 0 for k in LAYOUT)
